@@ -8,4 +8,4 @@ X WireBase.enc_varint WireBase.dec_varint WireBase.le_enc WireBase.le_dec
 X WireMsg.enc_msg WireMsg.dec_payload WireMsg.kind_of WireMsg.cmd_bytes WireMsg.is_opaque WireMsg.wf_msg
 X WireMsg.max_message_payload WireMsg.max_payload WireMsg.alloc_payload WireMsg.all_kinds WireMsg.enc_payload
 X WireFrame.read_stream WireFrame.frame_rest WireSpec.split_frames WireSpec.norm_msg WireFrame.write_message WireFrame.read_message WireFrame.alloc_frame WireFrame.alloc_limit WireFrame.kind_of_cmd
-X WireSpec.max_wf_payload_len WireSpec.must_reject WireSpec.count_over_limit WireSpec.canonical_kind WireSpec.big_flag WireSpec.known_cmd
+X WireSpec.header_oversize WireSpec.string_over_limit WireSpec.max_wf_payload_len WireSpec.must_reject WireSpec.count_over_limit WireSpec.canonical_kind WireSpec.big_flag WireSpec.known_cmd
